@@ -662,28 +662,33 @@ class Interp:
                 sg = v.single()
                 if sg and sg[1] == 1 and sg[0] in s.facts.ex:
                     f.ex[pn] = frozenset(x + sg[2] for x in s.facts.ex[sg[0]])
+                # express the value through the atoms already solved for, then solve for one more
+                w = v.subst(sub)
                 piv = None
-                for a, c in v.terms:
+                for a, c in w.terms:
                     if a == name and c in (1, -1):
                         piv = (a, c)
                         break
                 if piv is None:
-                    for a, c in v.terms:
-                        if c in (1, -1) and a not in used and self._volatile_atom(a):
+                    for a, c in w.terms:
+                        if c in (1, -1) and not a.endswith("'") and a not in sub and self._volatile_atom(a):
                             piv = (a, c)
                             break
                 if piv is None:
-                    # the value is built from stable atoms only: remember the definition itself
-                    if 1 <= len(v.terms) <= 2:
-                        d = Lin.atom(pn).sub(v)
+                    # nothing left to solve for: remember the definition itself
+                    dn_ = set(diff.values())
+                    if 1 <= len(w.terms) <= 2 and not any(a in sub or a in dn_ for a, _ in w.terms):
+                        d = Lin.atom(pn).sub(w)
                         f.ub[d.terms] = -d.const
                         d2 = d.scale(-1)
                         f.ub[d2.terms] = -d2.const
                     continue
                 a, c = piv
-                used.add(a)
-                rest = v.sub(Lin.atom(a, c))
-                sub[a] = Lin.atom(pn).sub(rest).scale(c)
+                rest = w.sub(Lin.atom(a, c))
+                one = {a: Lin.atom(pn).sub(rest).scale(c)}
+                for a0 in list(sub.keys()):
+                    sub[a0] = sub[a0].subst(one)
+                sub[a] = one[a]
             for key, c in list(s.facts.ub.items()):
                 if not any(a in sub for a, _ in key):
                     continue
@@ -715,7 +720,7 @@ class Interp:
                 else:
                     del rf.iv[a]
             for k, name in diff.items():
-                pv = prev.mem.get(k)
+                pv = prev.mem.get(k) if k[0] != 'G' else prev.ghost.get(k[1])
                 if is_lin(pv) and pv == Lin.atom(name) and (name + "'") in rf.iv:
                     plo, phi = prev.facts.iv.get(name, (-INF, INF))
                     lo, hi = rf.iv[name + "'"]
